@@ -22,6 +22,7 @@ import (
 // its cookies, and each filter's own timeouts govern its sessions.
 
 type c18Filter struct {
+	prefix    string // cookie_name_prefix ("" = default cookie name)
 	name      string
 	idp       *sim.IdP
 	cfg       *oidcv1.OIDCConfig
@@ -29,7 +30,12 @@ type c18Filter struct {
 	abs, idle time.Duration
 }
 
-func (f *c18Filter) cookieName() string { return "__Host-" + f.name + "-authservice-session-id-cookie" }
+func (f *c18Filter) cookieName() string {
+	if f.prefix == "" {
+		return "__Host-authservice-session-id-cookie"
+	}
+	return "__Host-" + f.prefix + "-authservice-session-id-cookie"
+}
 
 type c18World struct {
 	fs     []*c18Filter
@@ -49,8 +55,10 @@ func newC18World(c *sim.Case, n int, storeMode string, timeouts [][2]int) *c18Wo
 	}
 	full := &configv1.Config{}
 	mr, _ := sim.Redis()
+	// cookie-name prefixes: unrelated, or nested (one a prefix of the other), or one filter on the default name
+	prefixes := [][]string{{"f0", "f1", "f2"}, {"app", "app-admin", "app-admin-x"}, {"", "f1", "f2"}, {"tenant", "", "tenant-b"}}[sim.Pick(c, "prefix-shape", 4)]
 	for i := 0; i < n; i++ {
-		f := &c18Filter{name: fmt.Sprintf("f%d", i), abs: time.Duration(timeouts[i][0]) * time.Second, idle: time.Duration(timeouts[i][1]) * time.Second}
+		f := &c18Filter{name: fmt.Sprintf("f%d", i), prefix: prefixes[i], abs: time.Duration(timeouts[i][0]) * time.Second, idle: time.Duration(timeouts[i][1]) * time.Second}
 		f.idp = sim.NewIdP("client-"+f.name, "secret-"+f.name, time.Now)
 		if binary {
 			w.stops = append(w.stops, f.idp.ServeOnLoopback())
@@ -69,7 +77,7 @@ func newC18World(c *sim.Case, n int, storeMode string, timeouts [][2]int) *c18Wo
 			AuthorizationUri: f.idp.AuthURL(), TokenUri: f.idp.TokenURL(), CallbackUri: "https://app.test/cb-" + f.name,
 			JwksConfig: &oidcv1.OIDCConfig_Jwks{Jwks: sim.JWKS(f.idp.Keys)}, ClientId: "client-" + f.name,
 			ClientSecretConfig: &oidcv1.OIDCConfig_ClientSecret{ClientSecret: "secret-" + f.name}, Scopes: []string{"openid"},
-			CookieNamePrefix: f.name, IdToken: &oidcv1.TokenConfig{Header: "authorization", Preamble: "Bearer"},
+			CookieNamePrefix: f.prefix, IdToken: &oidcv1.TokenConfig{Header: "authorization", Preamble: "Bearer"},
 			AccessToken:            &oidcv1.TokenConfig{Header: "x-access-token"},
 			AbsoluteSessionTimeout: uint32(timeouts[i][0]), IdleSessionTimeout: uint32(timeouts[i][1]),
 		}
